@@ -155,6 +155,166 @@ def t_componentwise(src):
     return f"(* {where} *)\nDefinition componentwise_W (dim : nat) : mat := eye dim.\n"
 
 
+# ------------------------------------------------------------------ rectangles (C09, C14)
+class VecC:
+    """vector expressions over Q: names, + - * (Hadamard), / literal, np.maximum / np.minimum"""
+
+    def __init__(self, env, where):
+        self.env, self.where = env, where
+
+    def c(self, n):
+        key = ast.unparse(n)
+        if key in self.env:
+            return self.env[key]
+        if isinstance(n, ast.BinOp):
+            if isinstance(n.op, ast.Div):
+                c = qlit(lit_value(n.right, self.where), self.where)
+                return f"(vscale (/ {c}) {self.c(n.left)})"
+            f = {ast.Add: "vadd", ast.Sub: "vsub", ast.Mult: "vmul"}.get(type(n.op))
+            if f:
+                return f"({f} {self.c(n.left)} {self.c(n.right)})"
+        if isinstance(n, ast.Call) and ast.unparse(n.func) in ("np.maximum", "np.minimum") and len(n.args) == 2 and not n.keywords:
+            f = "vmaxv" if ast.unparse(n.func) == "np.maximum" else "vminv"
+            return f"({f} {self.c(n.args[0])} {self.c(n.args[1])})"
+        raise Reject(self.where, f"unsupported vector expression `{key[:80]}`")
+
+
+def t_get_vertices(src):
+    where = "vopy/utils/utils.py:hyperrectangle_get_vertices"
+    fn = src.func("vopy/utils/utils.py", "hyperrectangle_get_vertices")
+    lo, up = fn.args.args[0].arg, fn.args.args[1].arg
+    match_stmts(f"a = [[l1, l2] for l1, l2 in zip({lo}, {up})]\n"
+                "vertex_list = [element for element in itertools.product(*a)]\nreturn np.array(vertex_list)",
+                clean_body(fn), where)
+    return (f"(* {where} *)\nDefinition gen_vertices (lower upper : vec) : list vec := vertices (mkbox lower upper).\n")
+
+
+def t_rect_is_dominated(src):
+    where = "vopy/confidence_region.py:RectangularConfidenceRegion.is_dominated"
+    fn = src.func("vopy/confidence_region.py", "RectangularConfidenceRegion.is_dominated")
+    body = clean_body(fn)
+    names = [a.arg for a in fn.args.args]            # cls, order, obj1, obj2, slackness
+    if names[1:] != ["order", "obj1", "obj2", "slackness"]:
+        raise Reject(where, f"unexpected parameters {names}")
+    b = match_stmts("""
+if np.array(slackness).size != 1 and slackness.size != len(obj1.lower):
+    raise ValueError(M_msg)
+verts1 = hyperrectangle_get_vertices(M_a.lower, M_a.upper)
+verts2 = hyperrectangle_get_vertices(M_b.lower, M_b.upper)
+for vert1 in verts1:
+    for vert2 in verts2:
+        if not order.dominates(M_x, M_y):
+            return False
+return True
+""", body, where)
+    ra, rb = ast.unparse(b["M_a"]), ast.unparse(b["M_b"])
+    if {ra, rb} != {"obj1", "obj2"}:
+        raise Reject(where, f"vertex lists built from {ra}, {rb}")
+    env = {"vert1": "vert1", "vert2": "vert2", "slackness": "slack"}
+    vc = VecC(env, where)
+    x, y = vc.c(b["M_x"]), vc.c(b["M_y"])
+    return (f"(* {where} *)\n"
+            "Definition gen_rect_is_dominated (W : mat) (obj1 obj2 : box) (slack : vec) : bool :=\n"
+            f"  forallb (fun vert1 => forallb (fun vert2 => gen_dominates W {x} {y})\n"
+            f"                                (gen_vertices (lowers {rb}) (uppers {rb})))\n"
+            f"          (gen_vertices (lowers {ra}) (uppers {ra})).\n"
+            "Definition gen_rect_dom_slack_ok (size m : nat) : bool := Nat.eqb size 1 || Nat.eqb size m.\n")
+
+
+def cmp2(n, env, where):
+    """np.any(A <op> B) over vectors -> existsb over pairs"""
+    if not (isinstance(n, ast.Call) and ast.unparse(n.func) == "np.any" and len(n.args) == 1 and isinstance(n.args[0], ast.Compare)
+            and len(n.args[0].ops) == 1):
+        raise Reject(where, f"expected np.any(a <op> b): `{ast.unparse(n)}`")
+    c = n.args[0]
+    a, b = ast.unparse(c.left), ast.unparse(c.comparators[0])
+    if a not in env or b not in env:
+        raise Reject(where, f"unknown operands in `{ast.unparse(n)}`")
+    test = {ast.GtE: "Qle_bool y x", ast.Gt: "negb (Qle_bool x y)", ast.LtE: "Qle_bool x y", ast.Lt: "negb (Qle_bool y x)"}.get(type(c.ops[0]))
+    if test is None:
+        raise Reject(where, "unsupported comparison")
+    return f"any2 (fun x y => {test}) {env[a]} {env[b]}"
+
+
+def t_check_intersection(src):
+    where = "vopy/utils/utils.py:hyperrectangle_check_intersection"
+    fn = src.func("vopy/utils/utils.py", "hyperrectangle_check_intersection")
+    names = [a.arg for a in fn.args.args]
+    if names != ["lower1", "upper1", "lower2", "upper2"]:
+        raise Reject(where, f"unexpected parameters {names}")
+    b = match_stmts("if M_c1 or M_c2:\n    return False\nreturn True", clean_body(fn), where)
+    env = {n: n for n in names}
+    return (f"(* {where} *)\nDefinition gen_check_intersection (lower1 upper1 lower2 upper2 : vec) : bool :=\n"
+            f"  negb ({cmp2(b['M_c1'], env, where)} || {cmp2(b['M_c2'], env, where)}).\n")
+
+
+def t_rect_update(src):
+    where = "vopy/confidence_region.py:RectangularConfidenceRegion.update"
+    fn = src.func("vopy/confidence_region.py", "RectangularConfidenceRegion.update")
+    b = match_stmts("""
+if covariance.shape[-1] != covariance.shape[-2]:
+    raise ValueError(M_msg)
+std = np.sqrt(np.diag(covariance.squeeze()))
+L = M_L
+U = M_U
+if self.intersect_iteratively:
+    self.intersect(L, U)
+else:
+    self.lower = L
+    self.upper = U
+""", clean_body(fn), where)
+    vc = VecC({"mean": "mean", "std": "std", "scale": "scale"}, where)
+    return (f"(* {where}; std = sqrt(diag(covariance)) is an input of the model *)\n"
+            f"Definition gen_rect_update_L (mean std scale : vec) : vec := {vc.c(b['M_L'])}.\n"
+            f"Definition gen_rect_update_U (mean std scale : vec) : vec := {vc.c(b['M_U'])}.\n"
+            "Definition gen_rect_update_intersects_when_flag : bool := true.\n")
+
+
+def t_rect_intersect(src):
+    where = "vopy/confidence_region.py:RectangularConfidenceRegion.intersect"
+    fn = src.func("vopy/confidence_region.py", "RectangularConfidenceRegion.intersect")
+    b = match_stmts("""
+if hyperrectangle_check_intersection(self.lower, self.upper, lower, upper):
+    self.lower = M_l
+    self.upper = M_u
+else:
+    self.lower = lower
+    self.upper = upper
+""", clean_body(fn), where)
+    vc = VecC({"self.lower": "slower", "self.upper": "supper", "lower": "lower", "upper": "upper"}, where)
+    return (f"(* {where} *)\nDefinition gen_rect_intersect (slower supper lower upper : vec) : vec * vec :=\n"
+            f"  if gen_check_intersection slower supper lower upper then ({vc.c(b['M_l'])}, {vc.c(b['M_u'])}) else (lower, upper).\n")
+
+
+def t_rect_center(src):
+    where = "vopy/confidence_region.py:RectangularConfidenceRegion.center"
+    fn = src.func("vopy/confidence_region.py", "RectangularConfidenceRegion.center")
+    body = clean_body(fn)
+    if len(body) != 1 or not isinstance(body[0], ast.Return):
+        raise Reject(where, "not a single return")
+    vc = VecC({"self.lower": "lower", "self.upper": "upper"}, where)
+    return f"(* {where} *)\nDefinition gen_rect_center (lower upper : vec) : vec := {vc.c(body[0].value)}.\n"
+
+
+def t_ell_update(src):
+    where = "vopy/confidence_region.py:EllipsoidalConfidenceRegion.update"
+    fn = src.func("vopy/confidence_region.py", "EllipsoidalConfidenceRegion.update")
+    b = match_stmts("""
+if covariance.shape[-1] != covariance.shape[-2]:
+    raise ValueError(M_m1)
+if np.array(scale).size != 1:
+    raise ValueError(M_m2)
+self.center = M_c
+self.sigma = M_s
+self.alpha = M_a
+""", clean_body(fn), where)
+    got = tuple(ast.unparse(b[k]) for k in ("M_c", "M_s", "M_a"))
+    if not set(got) <= {"mean", "covariance", "scale"}:
+        raise Reject(where, f"assigned {got}")
+    return (f"(* {where} *)\nDefinition gen_ell_update (mean : vec) (covariance : mat) (scale : Q) : vec * mat * Q :=\n"
+            f"  ({got[0]}, {got[1]}, {got[2]}).\n")
+
+
 def run(src, out):
     hdr = {}
     f = "Gen_order.v"
@@ -163,4 +323,15 @@ def run(src, out):
     out.attempt(f, "dominates", lambda: t_dominates(src))
     out.attempt(f, "cone3d", lambda: t_cone3d(src))
     out.attempt(f, "componentwise", lambda: t_componentwise(src))
+    f = "Gen_region.v"
+    hdr[f] = (HEADER.format(src="vopy/confidence_region.py, vopy/utils/utils.py")
+              + "From Coq Require Import QArith Qminmax List Bool.\nFrom VOPy Require Import QVec Cone Rect.\nFrom VOPyGen Require Import Gen_order.\n"
+              "Import ListNotations.\nOpen Scope Q_scope.\n\n")
+    out.attempt(f, "hyperrectangle_get_vertices", lambda: t_get_vertices(src))
+    out.attempt(f, "rect_is_dominated", lambda: t_rect_is_dominated(src))
+    out.attempt(f, "hyperrectangle_check_intersection", lambda: t_check_intersection(src))
+    out.attempt(f, "rect_update", lambda: t_rect_update(src))
+    out.attempt(f, "rect_intersect", lambda: t_rect_intersect(src))
+    out.attempt(f, "rect_center", lambda: t_rect_center(src))
+    out.attempt(f, "ell_update", lambda: t_ell_update(src))
     return hdr
